@@ -160,6 +160,9 @@ void harness(void){
     assert(TX.request_progress>=prog0);                        /* C05.mono */
 #endif
 
+    /* C09.G3: the request side never revives a response direction that has failed or was stopped */
+    if(ost0==HTP_STREAM_ERROR||ost0==HTP_STREAM_STOP) assert(C.out_status==ost0);
+
     /* ---- state-specific clauses ---- */
 #if STATE==S_BODY_IDENTITY
     { size_t avail=len-(size_t)ro, k=(size_t)left0<avail?(size_t)left0:avail;
@@ -211,7 +214,7 @@ void harness(void){
     assert(n_body==0 && n_hdr==0);
     if(rc==HTP_OK||rc==HTP_STOP||(rc==HTP_ERROR&&n_complete)){
         if(!had_buf) assert(co1==co);     /* nothing of the probed line is consumed: it is parsed (or tunnelled) from its first byte */
-        if(n_complete==0){ assert(rc==HTP_OK && C.in_status==HTP_STREAM_TUNNEL && C.out_status==HTP_STREAM_TUNNEL); }
+        if(n_complete==0){ assert(rc==HTP_OK && C.in_status==HTP_STREAM_TUNNEL); if(ost0!=HTP_STREAM_ERROR&&ost0!=HTP_STREAM_STOP) assert(C.out_status==HTP_STREAM_TUNNEL); }
         else { assert(n_complete==1 && C.in_status==st0 && C.out_status==ost0); }
     }
     VERIF_COVER(n_complete==1, "tunnel payload is plain HTTP"); VERIF_COVER(rc==HTP_OK&&n_complete==0, "tunnel");
